@@ -114,9 +114,11 @@ PARAM_ANN = {"none": "", "int": ": int", "class": ": Marker", "localclass": ": L
              "noreturn": ": typing.NoReturn", "anystr": ": typing.AnyStr", "bare-optional": ": typing.Optional", "literalstring": ": typing.LiteralString",
              "never": ": typing.Never", "any": ": typing.Any", "callable": ": typing.Callable[[int], str]",
              # classes whose metaclass is not `type`
-             "enum": ": Colour", "abc": ": collections.abc.Mapping", "fraction": ": fractions.Fraction"}
+             "enum": ": Colour", "abc": ": collections.abc.Mapping", "fraction": ": fractions.Fraction",
+             # generics with several string (forward) references
+             "two-forward": ": typing.Dict['Key', 'Value']", "callable-forward": ": typing.Callable[['V', 'V'], 'V']"}
 RET_ANN = {"absent": "", "int": " -> int", "none": " -> None", "strlit": " -> 'str'", "optional": " -> typing.Optional[int]",
-           "generic": " -> typing.Dict[str, int]", "class": " -> Marker", "localclass": " -> LocalMarker", "enum": " -> Colour", "abc": " -> collections.abc.Sequence"}
+           "generic": " -> typing.Dict[str, int]", "class": " -> Marker", "localclass": " -> LocalMarker", "enum": " -> Colour", "abc": " -> collections.abc.Sequence", "two-forward": " -> typing.Tuple['A', 'B']"}
 
 
 def signatures(tier):
@@ -289,6 +291,16 @@ def check_fields(ctx, groups, target):
     data0 = repr(cc.asdict(cfg))
     ctx.states += 1
     ctx.transitions += 1
+    # a call the generator refuses (no class name can be derived from a schema / a configuration) has no side effect either
+    for refused in (schema, cfg, schema.sub if "sub" in schema._fields else schema):
+        try:
+            with contextlib.redirect_stdout(io.StringIO()):
+                cc.generate_stub(refused)
+        except Exception:  # noqa
+            pass
+    if schema_snap(schema) != snap0 or set(vars(cfg)) != vars0 or repr(cc.asdict(cfg)) != data0:
+        bad("refused-call-side-effect", "a generate_stub call without a class name changed the schema or the configuration: fields now %s" % sorted(schema._fields))
+        return
     res, out = gen(obj, name)
     res_again, out_again = gen(obj, name)
     out += out_again
